@@ -782,14 +782,19 @@ func (x *Exec) checkCallsClauses(st *State, key string, fc *FuncContract, c *ssa
 			}
 			ptypes := calleeParamTypes(c, fc, x.P.funcs[key])
 			for i, a := range args {
-				if i < len(names) && isSMTVal(a) {
-					v := a
-					if i < len(ptypes) && ptypes[i] != nil {
-						v = retype(a, ptypes[i])
-					}
-					vars["callee_"+names[i]] = v
-					vars["arg"+fmt.Sprint(i)] = v
+				if !isSMTVal(a) {
+					continue
 				}
+				v := a
+				if i < len(ptypes) && ptypes[i] != nil {
+					v = retype(a, ptypes[i])
+				} else if i < len(c.Args) && v.Typ == nil {
+					v = retype(a, c.Args[i].Type())
+				}
+				if i < len(names) {
+					vars["callee_"+names[i]] = v
+				}
+				vars["arg"+fmt.Sprint(i)] = v
 			}
 			// variadic call f(a, b, xs...) written with explicit arguments: vararg0.. are the values before boxing,
 			// nvarargs their number
